@@ -20,6 +20,8 @@ mod unproved;
 // D16d: DER-based decoders (attest/cd.rs, cert/x509/cert.rs, cert/x509/csr.rs, cert/der_utils.rs, `der` reading layer)
 #[path = "c17_x509.rs"]
 mod dercodecs;
+#[path = "c17_der.rs"]
+mod der; // D16c: ASN1Writer + CertRef::as_asn1 (kind `der`)
 
 /// where the last panic happened (recorded by the hook installed in `install_hook`)
 pub static LAST_PANIC: std::sync::Mutex<String> = std::sync::Mutex::new(String::new());
@@ -543,6 +545,8 @@ pub fn run_op(kind: &str, op: &str) -> String {
             } else if let Some(r) = dercodecs::run_op(k, op) {
                 // D16d
                 r
+            } else if let Some(r) = der::run_op(k, op) {
+                r // D16c
             } else {
                 "badkind".into()
             }
@@ -988,6 +992,7 @@ pub fn gen(a: &Args) -> String {
     more::gen(&mut r, &mut out, a.thorough, &mut id);
     unproved::gen(&mut r, &mut out, a.thorough, &mut id);
     dercodecs::gen(&mut r, &mut out, a.thorough, &mut id); // D16d
+    der::gen(&mut r, &mut out, a.thorough, &mut id); // D16c
     out.finish()
 }
 
